@@ -90,6 +90,12 @@ func runC02(w *h.W, batch int) {
 			opt.N = len(corp.Docs)
 			form = h.Pick(cr, []string{"sealed", "two-fracs"})
 		}
+		recent := ""
+		if batch%8 == 3 && ci < 2 && len(corp.Docs) > 0 {
+			// documents minutes to hours older than their fraction: the sealed forms then prune by the occupancy map
+			recent = moveToRecentPast(cr, corp)
+			form = h.Pick(cr, []string{"sealed", "two-fracs", "many-fracs", "sealed-interleaved"})
+		}
 		dir := w.Sub(fmt.Sprintf("c%d", ci))
 		sopt := sdb.Opt{Mapping: StoreMapping()}
 		if form == "many-fracs" {
@@ -166,7 +172,7 @@ func runC02(w *h.W, batch int) {
 			st.Stop()
 			continue
 		}
-		corpusDesc := fmt.Sprintf("N=%d vocab=%d midspread=%d smallrid=%v form=%s", opt.N, opt.Vocab, opt.MIDSpread, opt.SmallRID, form)
+		corpusDesc := fmt.Sprintf("N=%d vocab=%d midspread=%d smallrid=%v form=%s", opt.N, opt.Vocab, opt.MIDSpread, opt.SmallRID, form) + recent
 		for qi := 0; qi < perCorp; qi++ {
 			qr := cr.Fork()
 			q := corp.Query(qr, gen.QueryOpt{MaxDepth: qr.Range(0, 5)})
